@@ -40,3 +40,19 @@ if os.path.exists(mx):
     print('|---|' + '---|' * len(checks))
     for n in sorted(M):
         print('| %s | ' % n + ' | '.join(str(M[n].get(c, '')) for c in checks) + ' |')
+
+# ---------------------------------------------------------------- components as built
+if '--components' in sys.argv:
+    sys.path.insert(0, VERIF); sys.path.insert(0, os.environ.get('PAMQP_REPO', '/repo'))
+    import importlib
+    print('\n### 8.5 Components as built (from the property modules)\n')
+    print('| property | component | kind | quick / thorough budget | what |')
+    print('|---|---|---|---|---|')
+    for i in range(1, 21):
+        mod = importlib.import_module('pbt.props.c%02d' % i)
+        for c in mod.COMPONENTS:
+            if c.kind == 'hyp':
+                b = '%d / %d cases' % (c.budget['quick'], c.budget['thorough'])
+            else:
+                b = 'enumerated' + (' (exhaustive)' if c.exhaustive else '')
+            print('| %s | %s | %s | %s | %s |' % (mod.PROPERTY_ID, c.name, c.kind, b, c.describe))
